@@ -310,7 +310,7 @@ func execLin(in linInput, scratch string) (Case, error) {
 							return sgbucket.UpdatedDoc{Doc: []byte(lastDoc), Xattrs: map[string][]byte{"_sync": []byte(lastX)}}, nil
 						})
 					rec.ret = time.Since(start).Nanoseconds()
-					rec.op = C("KWriteUpdateWithXattrs", C("WUResult", C("mkWu", Some(S(lastDoc)), L(P(S("_sync"), Some(S(lastX)))), None(), B(false), None(), L())), L())
+					rec.op = C("KWriteUpdateWithXattrs", C("WUResult", C("mkWu", Some(S(lastDoc)), L(P(S("_sync"), Some(S(lastX)))), None(), B(false), None(), L(), B(false))), L())
 					rec.resp = casResp(co, e)
 					rec.shown = &shown
 				}
